@@ -256,6 +256,13 @@ def run(ctx):
         for col in pool.map(_chunk, chunks):
             ctx.merge(col)
     run_through_classes(ctx)
+    if ctx.tier == "thorough":
+        # extra assurance on the specification, not relied upon: the lag / range lemmas of Hankel.tla for ALL sizes (TLAPS)
+        ob, pr = core.run_tlaps("HankelLag", ctx.scratch)
+        ctx.extra["tlaps_obligations"] = ob
+        ctx.extra["tlaps_discharged"] = pr
+        if pr != ob:
+            raise core.MachineryFailure(f"TLAPS proved only {pr} of {ob} obligations of HankelLag.tla")
     ctx.exhaustive = True
 
 
